@@ -33,7 +33,7 @@ ASSUMPTIONS = [
 BOUNDS = {"quick": {"registrations": "1 (all), 2 (reduced)", "passes": 2}, "thorough": {"registrations": "1, 2, 3", "passes": 2}}
 CAP_S = {"quick": 150, "thorough": 2400}
 
-TERMS = [None, ["jmp", "A"], ["jcc", "A"], ["call", "A"], ["ret"], ["ijmp"], ["icall"]]
+TERMS = [None, ["jmp", "A"], ["jcc", "A"], ["call", "A"], ["ret"], ["ijmp"], ["icall"], ["syscall"]]
 FUNCS = (("f", "f", "g"), ("f", "g", "g"), (None, "f", "f"), ("main", "main", "g"), ("f", "f", "f"))
 POS = ("ENTRY", "EXIT", "ANYWHERE")
 SCOPES = (
@@ -126,7 +126,7 @@ def designated(spec, sc):
                 continue
             if typ == "Return":
                 is_exit = True
-            elif typ != "Call":
+            elif typ not in ("Call", "Syscall"):
                 if not isinstance(tg, tuple):
                     is_exit = True  # proxy: outside the function
                 else:
